@@ -387,6 +387,9 @@ impl Mode for RunMode {
             let mut why = String::new();
             if outcome == "hang" || outcome == "panic" || outcome.starts_with("spawnfail") {
                 why = format!("the binary ended as {}", outcome);
+            } else if m_outcome == "fuel" {
+                // the program is longer than the bound on loop iterations the Lean driver evaluates the model with: not compared
+                return (Verdict::Out, key, None);
             } else if outcome != m_outcome {
                 why = format!("the binary ended as {}, the model of run() as {}", outcome, m_outcome);
             } else if outcome == "finished" {
@@ -435,7 +438,10 @@ impl Mode for RunMode {
                 x.rsplit_once(" wire=").map(|p| p.0).unwrap_or(x).to_string()
             }
         };
-        let corr = if strip(imp) != strip(&m) { Some(format!("impl [{}] model [{}]", clip(&strip(imp)), clip(&strip(&m)))) } else { None };
+        // (a program longer than the Lean driver's bound on loop iterations is not compared)
+        let corr = if m.starts_with("fuel") {
+            None
+        } else if strip(imp) != strip(&m) { Some(format!("impl [{}] model [{}]", clip(&strip(imp)), clip(&strip(&m)))) } else { None };
         let outcome = imp.split(' ').next().unwrap_or("");
         let mut why = String::new();
         let mut dom = true;
